@@ -25,7 +25,7 @@ from harness import common
 from harness.common import Model
 
 PID = "C13"
-TRANSLATORS = ["T-selectors-assert", "T-selectors-assume", "T-assert-arms", "T-exc-hierarchy", "T-run-excepts"]
+TRANSLATORS = ["T-selectors-assert", "T-selectors-assume", "T-assert-arms", "T-exc-hierarchy", "T-run-excepts", "T-jumpi"]
 
 # genuine defects of halmos found by this check (see the final report); a failing input whose
 # `sig` matches an entry is printed as KNOWN-FINDING instead of VIOLATION
@@ -35,10 +35,11 @@ PARTIAL = ("the Coq model takes calldata as concrete bytes under a valuation (sy
            "NotConcreteError => stuck, outside the model); message bytes that are symbolic are not decoded by halmos and not modelled; "
            "bytes[]/string[] overloads are not supported by halmos: proved and checked to end the current path as a stuck path "
            "(no pass claimed, other paths kept); their relation itself is not specified; "
-           "a sequence is a straight line of cheatcode calls issued by one frame (no EVM computation between them)")
+           "a sequence is cheatcode calls and two-way branches (sides rejoin) run by one frame; branches that halmos decides without asking the oracle "
+           "(a symbol pinned by an equality on the path) are outside the model: outcomes no sampled input lies on are not compared")
 ASSUMPTIONS = [
     "ByteVec slices behave as a flat zero-extended byte array (property C07); z3py operators denote their SMT-LIB meaning (== / != equality, ULT/UGT/ULE/UGE unsigned, < > <= >= signed on BitVecRef)",
-    "the solver oracle is sound when it answers unsat (Section hypothesis of C13_fail_exact / C13_assert_continue); is_false() only holds for the literal false",
+    "the solver oracle is sound when it answers unsat for the path it is asked about (Section hypothesis of C13_fail_exact / C13_assert_continue / C13_seq_exact); tested on every run: each unsat answer ex.check gives inside the assert branch or SEVM.jumpi is checked against the sampled inputs of that path; is_false() only holds for the literal false",
     "the extracted model and driver are faithful to the Coq definitions (extraction is trusted)",
 ]
 
@@ -658,13 +659,39 @@ def _root_code(target, after="ignore"):
             + (_AFTER_CALL[after] if target != HEVM else _AFTER_CALL["ignore"]))
 
 
-def _seq_code(chunks):
-    # copy calldata to memory; for each (offset, length): CALL(gas, hevm, 0, offset, length, 0, 0); POP; then STOP
+CMP_OPS = {"ult": 0x10, "ugt": 0x11, "slt": 0x12, "sgt": 0x13, "eq": 0x14}
+
+
+def _seq_code(chunks, steps=None):
+    """copy calldata to memory; per step, on its calldata chunk (offset, length):
+         cheatcode call: CALL(gas, hevm, 0, offset, length, 0, 0); POP
+         branch        : PUSH32 c; CALLDATALOAD(offset); <cmp> [ISZERO]; PUSH2 L; JUMPI; L: JUMPDEST   (both sides go on at L)
+       then STOP.  Returns (code, [(first pc, end pc) of each step])."""
     code = bytes([0x36, 0x5F, 0x5F, 0x37])
-    for off, n in chunks:
-        code += (bytes([0x5F, 0x5F, 0x61]) + n.to_bytes(2, "big") + bytes([0x61]) + off.to_bytes(2, "big")
-                 + bytes([0x5F, 0x73]) + HEVM.to_bytes(20, "big") + bytes([0x5A, 0xF1, 0x50]))
-    return code + b"\x00"
+    ranges = []
+    for k, (off, n) in enumerate(chunks):
+        st = steps[k] if steps is not None else None
+        start = len(code)
+        if st is not None and st["kind"] == "branch":
+            code += bytes([0x7F]) + (st["c"] % W).to_bytes(32, "big") + bytes([0x61]) + off.to_bytes(2, "big") + bytes([0x35, CMP_OPS[st["cmp"]]])
+            if st.get("neg"):
+                code += bytes([0x15])
+            dest = len(code) + 4
+            code += bytes([0x61]) + dest.to_bytes(2, "big") + bytes([0x57, 0x5B])
+        else:
+            code += (bytes([0x5F, 0x5F, 0x61]) + n.to_bytes(2, "big") + bytes([0x61]) + off.to_bytes(2, "big")
+                     + bytes([0x5F, 0x73]) + HEVM.to_bytes(20, "big") + bytes([0x5A, 0xF1, 0x50]))
+        ranges.append((start, len(code)))
+    return code + b"\x00", ranges
+
+
+def branch_taken(st, val):
+    """truth of the JUMPI condition of a branch step under a valuation"""
+    x, c = val[st["var"]] % W, st["c"] % W
+    if st.get("hard"):
+        x = hard_fun(x)
+    t = {"ult": x < c, "ugt": x > c, "slt": _signed(x) < _signed(c), "sgt": _signed(x) > _signed(c), "eq": x == c}[st["cmp"]]
+    return t != bool(st.get("neg"))
 
 
 def _assume_word(spec, syms):
@@ -737,6 +764,9 @@ def _impl_l2(case):
         for st in seq:
             if st["kind"] == "assume":
                 ps, n = [ASSUME_SEL.to_bytes(4, "big"), _assume_word(st["assume"], syms)], 36
+            elif st["kind"] == "branch":
+                # the compared word: the variable itself, or (hard) a function of it the branching solver cannot decide in 1 ms
+                ps, n = seg_parts([["m", st["var"]] if st.get("hard") else ["s", st["var"], 32]])[0], 32
             else:
                 sp, sn = seg_parts(st["segs"])
                 ps, n = [st["sel"].to_bytes(4, "big")] + sp, 4 + sn
@@ -748,7 +778,10 @@ def _impl_l2(case):
     args = default_config()
     sevm = SEVM(args, FunctionInfo("T", "test", "test()", "f8a8fd6d"))
     solver = mk_solver(args)
+    if case.get("branch_timeout_ms"):
+        solver.set("timeout", case["branch_timeout_ms"])   # the branching solver's allowance (default 1 ms)
     addrs = [0x1000 + i for i in range(depth + 1)]
+    seq_ranges = []
     code = {}
     for i, a in enumerate(addrs):
         tgt = addrs[i + 1] if i < depth else HEVM
@@ -756,7 +789,11 @@ def _impl_l2(case):
             after = case.get("after", "ignore") if i < depth else "ignore"   # the frame that calls hevm itself just goes on
             code[con_addr(a)] = Contract(_root_code(tgt, after) if i == 0 else _fwd_code(tgt, after))
         else:
-            code[con_addr(a)] = Contract(_fwd_code(tgt, case.get("after", "ignore")) if i < depth else _seq_code(chunks))
+            if i < depth:
+                code[con_addr(a)] = Contract(_fwd_code(tgt, case.get("after", "ignore")))
+            else:
+                sc, seq_ranges = _seq_code(chunks, seq)
+                code[con_addr(a)] = Contract(sc)
     this = con_addr(addrs[0])
     message = Message(target=this, caller=z3.BitVec("msg_sender", 160), origin=z3.BitVec("tx_origin", 160),
                       value=z3.BitVecVal(0, 256), data=data, call_scheme=EVM.CALL)
@@ -766,25 +803,69 @@ def _impl_l2(case):
 
     # record the solver answers given inside hevm_cheat_code.handle (second call = the cheatcode under test)
     checks = []
-    state = {"in": 0, "n": 0}
-    orig_check, orig_handle = Exec.check, hevm_cheat_code.__dict__["handle"]
+    state = {"in": 0, "n": 0, "site": 0, "k": 0}
+    orig_check, orig_handle, orig_jumpi = Exec.check, hevm_cheat_code.__dict__["handle"], SEVM.jumpi
+    vals = case["vals"]
+    truth = {}      # z3 term (by sexpr) -> its truth under each valuation
+    records = {}    # (mask of the valuations on the path asked about, step, negated?) -> answer
+    unsound, conflicts = [], []
+
+    def truth_of(term):
+        key = term.sexpr() if hasattr(term, "sexpr") else repr(term)
+        if key not in truth:
+            truth[key] = [_eval_bool(term, syms, {n: val.get(n, 0) for n in syms}) for val in vals]
+        return truth[key]
+
+    def mask_of(conds):
+        m = 0
+        for j in range(len(vals)):
+            if all(truth_of(c)[j] is True for c in conds):
+                m |= 1 << j
+        return m
 
     def check(self, cond):
         r = orig_check(self, cond)
         if state["in"]:
             checks.append((state["n"], str(r)))
+        if state["site"]:
+            # one query of the assert branch / of SEVM.jumpi: the first asks about the condition, the second about its negation
+            neg, state["k"] = state["k"], state["k"] + 1
+            m = mask_of(list(self.path.conditions))
+            if str(r) == "unsat":
+                # the Section hypothesis of C13_fail_exact / C13_seq_exact: an unsat answer must be true of the path it is given for
+                tv = truth_of(z3.simplify(cond))
+                bad = [j for j in range(len(vals)) if m >> j & 1 and tv[j] is True]
+                if bad and len(unsound) < 4:
+                    unsound.append({"valuation": vals[bad[0]], "cond": str(z3.simplify(cond))[:300], "pc": self.pc, "depth": self.context.depth,
+                                    "path": [str(c)[:200] for c in self.path.conditions][:12]})
+            if seq is not None and self.context.depth == depth + 1 and neg < 2:
+                ks = [k for k, (a, b) in enumerate(seq_ranges) if a <= self.pc < b]
+                if len(ks) == 1:
+                    key = (m, ks[0], neg)
+                    if records.setdefault(key, str(r)) != str(r):
+                        conflicts.append(key)
         return r
 
     def handle(sevm_, ex, arg, stack):
         state["in"] += 1
         state["n"] += 1
+        state["site"], state["k"] = 1, 0
         try:
             return orig_handle.__func__(sevm_, ex, arg, stack)
         finally:
             state["in"] -= 1
+            state["site"] = 0
+
+    def jumpi(self_, ex, stack, target, cond):
+        state["site"], state["k"] = 1, 0
+        try:
+            return orig_jumpi(self_, ex, stack, target, cond)
+        finally:
+            state["site"] = 0
 
     Exec.check = check
     hevm_cheat_code.handle = staticmethod(handle)
+    SEVM.jumpi = jumpi
     out = {"paths": [], "checks": None}
     try:
         for e in sevm.run(ex0):
@@ -801,7 +882,8 @@ def _impl_l2(case):
             err = e.context.output.error
             out["paths"].append({"flag": bool(is_global_fail_set(e.context)), "stuck": bool(e.context.is_stuck()),
                                  "error": type(err).__name__ if err is not None else None, "depth": e.context.depth,
-                                 "nconds": len(conds), "holds": holds})
+                                 "nconds": len(conds), "holds": holds,
+                                 "mask": sum(1 << j for j, h in enumerate(holds) if h is True)})
     except (_CaseTimeout, MemoryError):
         raise
     except Exception as e:  # noqa: BLE001
@@ -809,10 +891,13 @@ def _impl_l2(case):
     finally:
         Exec.check = orig_check
         hevm_cheat_code.handle = orig_handle
+        SEVM.jumpi = orig_jumpi
     out["checks"] = [r for n, r in checks if n == 2]
+    out["unsound"] = unsound
     if seq is not None:
-        # the calls are issued by one state, in program order: the n-th call of handle is step n
-        out["checks_by_call"] = [[r for n, r in checks if n == k + 1] for k in range(len(seq))]
+        # the oracle as it answered: (samples on the path asked about, step, negated?) -> answer
+        out["records"] = [[m, k, g, a] for (m, k, g), a in sorted(records.items())]
+        out["record_conflicts"] = len(conflicts)
         out["calls"] = state["n"]
     return out
 
@@ -962,6 +1047,7 @@ def check_l2(rep, bad, l2, impl2, res2):
             rep.case({"l2": k, "sig": c["sig"], "depth": c["depth"]}, nontrivial=True)
             continue
         paths = im["paths"]
+        report_unsound(bad, im, f"L2 {c['sig']} at call depth {c['depth']}", shown)
         for p in paths:
             if p["flag"] and (p["error"] != "FailCheatcode" or p["stuck"] or p["depth"] != c["depth"] + 1):
                 bad("broken-tie", f"L2 {c['sig']} depth {c['depth']}: a flagged path is not an un-finalized FailCheatcode state of the calling frame: {p}", shown)
@@ -1037,6 +1123,11 @@ def gen_l2seq(tier, r, table):
     def M(spec):
         return {"kind": "assume", "assume": spec}
 
+    def Br(cmp_, var, c, neg=False, hard=False):
+        # `if (var cmp c) {} else {}`: a JUMPI on the condition (negated: on its complement, i.e. the other side is the
+        # fall-through, explored first), both sides rejoin
+        return {"kind": "branch", "cmp": cmp_, "var": var, "c": c, "neg": neg, "hard": hard}
+
     X, Y, B = [(0, 32, "x")], [(0, 32, "y")], [(31, 1, "b")]
     unsupported = [lambda: A("assertEq(bytes[],bytes[])", [("w", 64), ("w", 96), ("w", 0), ("w", 0)]),
                    lambda: A("assertNotEq(string[],string[],string)", [("w", 96), ("w", 128), ("b", b"m"), ("w", 0), ("w", 0)]),
@@ -1066,11 +1157,34 @@ def gen_l2seq(tier, r, table):
         out += [{"x": v, "y": v, "b": k % 2} for k, v in enumerate(pool[:4])]
         return out
 
+    branches = [lambda: Br("ult", "x", 5), lambda: Br("ult", "x", 5, True), lambda: Br("ugt", "x", 200), lambda: Br("ugt", "x", 9, True),
+                lambda: Br("ult", "x", 10), lambda: Br("ult", "x", 3, True), lambda: Br("slt", "x", 0), lambda: Br("sgt", "x", 4, True),
+                lambda: Br("eq", "x", 7), lambda: Br("eq", "x", 7, True), lambda: Br("ult", "y", 5), lambda: Br("ugt", "y", 9, True)]
     cases = []
 
-    def add(depth, steps, tag):
-        cases.append({"kind": "l2seq", "depth": depth, "steps": steps, "vals": vals(16 if thorough else 9), "tag": tag,
-                      "after": "assume_ok" if depth and len(cases) % 2 else "ignore"})
+    def add(depth, steps, tag, slow_solver=None):
+        has_branch = any(st["kind"] == "branch" for st in steps)
+        # valuations: random ones, plus every constant the steps compare against and its two neighbours (the inputs
+        # that tell the sides of each branch / assumption / assertion apart), for x and for y
+        consts = {3, 5, 10}
+        for st in steps:
+            if st["kind"] == "branch":
+                consts.add(st["c"] % W)
+            elif st["kind"] == "assume" and len(st["assume"]) == 3:
+                consts.add(st["assume"][2] % W)
+        bnd = sorted({(c_ + d_) % W for c_ in consts for d_ in (-1, 0, 1)})
+        if len(bnd) > 14:
+            bnd = sorted(r.sample(bnd, 14))
+        vs = vals(10 if thorough else 4)
+        vs += [{"x": v, "y": r.choice(bnd), "b": k % 2} for k, v in enumerate(bnd)]
+        vs += [{"x": r.choice(bnd), "y": v, "b": k % 2} for k, v in enumerate(bnd[::3])]
+        c = {"kind": "l2seq", "depth": depth, "steps": steps, "vals": vs, "tag": tag,
+             "after": "assume_ok" if depth and len(cases) % 2 else "ignore"}
+        if has_branch if slow_solver is None else slow_solver:
+            # let the branching solver decide (its default allowance of 1 ms mostly does, but not on a loaded machine):
+            # what a path learns from a decided query is what must not reach its siblings
+            c["branch_timeout_ms"] = 400
+        cases.append(c)
 
     for depth in range(4):
         u = unsupported[depth % len(unsupported)]
@@ -1091,6 +1205,23 @@ def gen_l2seq(tier, r, table):
                 q = r.random()
                 steps.append(r.choice(unsupported)() if q < 0.15 else r.choice(assumes)() if q < 0.4 else r.choice(asserts)())
             add(depth, steps, "random")
+        # branches on the asserted operand before the assertions: sibling paths reach the same assertion under different
+        # constraints, in both orders of exploration (the fall-through side runs first; `neg` swaps the sides)
+        for neg in (False, True):
+            add(depth, [M(["ult", "x", 100]), Br("ugt", "x", 200), Br("ult", "x", 5, neg), asserts[1]()], "assume;branch;branch;assert")
+        add(depth, [asserts[1](), Br("ult", "x", 5, depth % 2 == 0), asserts[0](), asserts[2]()], "assert;branch;assert;assert")
+        add(depth, [M(["ult", "x", 10]), Br("ult", "x", 3, depth % 2 == 1), asserts[2](), u()], "assume;branch;assert;unsupported")
+        # a branch the solver cannot decide (default allowance): both sides must be followed
+        add(depth, [Br("ult", "x", 1 << 200, depth % 2 == 1, hard=True), asserts[1]()], "undecided-branch;assert", slow_solver=False)
+        add(depth, [M(["ult", "x", 12]), Br("slt", "x", 0, depth % 2 == 0, hard=True), asserts[0](), asserts[2]()], "assume;undecided-branch;assert;assert", slow_solver=False)
+        for _ in range(24 if thorough else 4):
+            # assume / refuted branch first (so that something has been learnt), then branches and asserts interleaved
+            steps = [r.choice(assumes[:3])(), r.choice(branches)()]
+            for _k in range(r.choice([2, 3, 3, 4])):
+                q = r.random()
+                steps.append(r.choice(branches)() if q < 0.4 else r.choice(assumes)() if q < 0.5 else r.choice(unsupported)() if q < 0.57 else r.choice(asserts[:10])())
+            steps.append(r.choice(asserts[:4])())
+            add(depth, steps, "random-branching")
     return cases
 
 
@@ -1103,6 +1234,8 @@ def foundry_verdict(steps, val):
     assumption, 'unsupported' at an overload halmos does not implement, else 'pass'; None when some assert's calldata is
     not a valid encoding under this valuation (the relation is undefined)"""
     for st in steps:
+        if st["kind"] == "branch":
+            continue   # both sides rejoin: nothing changes for a single input
         if st["kind"] == "assume":
             if not assume_holds(st["assume"], val):
                 return "rejected"
@@ -1118,28 +1251,61 @@ def foundry_verdict(steps, val):
     return "pass"
 
 
+def step_truth(st, val):
+    """truth of the step's condition under a valuation, from the specification (not from halmos' terms)"""
+    if st["kind"] == "assume":
+        return assume_holds(st["assume"], val)
+    if st["kind"] == "branch":
+        return branch_taken(st, val)
+    d = tuple(st["descr"])
+    if _is_unsupported(d):
+        return False
+    return bool(spec_assert(d, step_calldata(st, val)))
+
+
+def step_name(st):
+    if st["kind"] == "assert":
+        return st["sig"]
+    if st["kind"] == "assume":
+        return f"assume({st['assume']})"
+    return f"if({'!' if st.get('neg') else ''}{'f(' + st['var'] + ')' if st.get('hard') else st['var']} {st['cmp']} {st['c']})"
+
+
 def l2seq_model_calls(cases, impls):
     enc = {"unsat": 0, "sat": 1, "unknown": 2}
     calls = []
     for c, im in zip(cases, impls):
-        cb = im.get("checks_by_call") or []
-        args = [c["depth"]]
-        for k, st in enumerate(c["steps"]):
+        vals = c["vals"]
+        args = [c["depth"], len(vals), len(c["steps"])]
+        for st in c["steps"]:
+            tbl = [int(step_truth(st, v)) for v in vals]
             if st["kind"] == "assume":
-                args += [1, int(st["assume"] == ["const", 0])]
+                args += [1, int(st["assume"] == ["const", 0])] + tbl
+            elif st["kind"] == "branch":
+                args += [2] + tbl
             else:
-                ch = cb[k] if k < len(cb) else []
-                cd = step_calldata(st, c["vals"][0])
-                args += [0, enc[ch[0]] if ch else 2, enc[ch[1]] if len(ch) > 1 else 2, len(st["sig"])] + [ord(x) for x in st["sig"]] + [len(cd)] + list(cd)
+                cd = step_calldata(st, vals[0])
+                args += [0, len(st["sig"])] + [ord(x) for x in st["sig"]] + [len(cd)] + list(cd) + tbl
+        for m, k, g, a in im.get("records") or []:
+            args += [m, k, g, enc[a]]
         calls.append(("c13_seq", args))
     return calls
+
+
+def report_unsound(bad, im, where, shown):
+    """an `unsat` answer of ex.check that a sampled input of the path it was asked about contradicts: the hypothesis under
+    which C13_fail_exact / C13_seq_exact hold does not hold of the implementation (C13_seq_unsound_oracle_misses)"""
+    for u in im.get("unsound") or []:
+        bad("failing-input", f"{where}: ex.check answered unsat for {u['cond']} on the path {u['path']}, but input {u['valuation']} satisfies both "
+            f"(pc {u['pc']}, frame depth {u['depth']}): the branching oracle is unsound for this path, a failing branch is not forked",
+            dict(shown, valuation=u["valuation"]), {"defect": "unsound-check"})
 
 
 def check_l2seq(rep, bad, cases, impls, res):
     for k, (c, im) in enumerate(zip(cases, impls)):
         steps = c["steps"]
-        descr = "; ".join(st["sig"] if st["kind"] == "assert" else f"assume({st['assume']})" for st in steps)
-        shown = {"l2seq": True, "depth": c["depth"], "steps": steps, "after": c.get("after", "ignore")}
+        descr = "; ".join(step_name(st) for st in steps)
+        shown = {"l2seq": True, "depth": c["depth"], "steps": steps, "after": c.get("after", "ignore"), "branch_timeout_ms": c.get("branch_timeout_ms")}
         rep.count("l2_callers", c.get("after", "ignore") if c["depth"] else "no-caller")
         rep.count("l2seq_depth", c["depth"])
         rep.count("l2seq_shape", c["tag"])
@@ -1167,6 +1333,9 @@ def check_l2seq(rep, bad, cases, impls, res):
         for p in paths:
             if any(isinstance(h, str) for h in p["holds"]):
                 bad("broken-tie", f"L2s [{descr}]: a path condition could not be evaluated: {p['holds']}", shown)
+        report_unsound(bad, im, f"sequence [{descr}] at call depth {c['depth']}", shown)
+        if any(st["kind"] == "branch" for st in steps):
+            rep.count("l2seq_branching", f"{sum(st['kind'] == 'branch' for st in steps)} branches / {len(paths)} paths")
         nontriv = False
         for j, val in enumerate(c["vals"]):
             v = foundry_verdict(steps, val)
@@ -1195,11 +1364,24 @@ def check_l2seq(rep, bad, cases, impls, res):
             if mo == [9]:
                 bad("broken-tie", f"L2s [{descr}] depth {c['depth']}: the model says an exception escapes, the implementation yields {paths}", shown)
             else:
-                outs = [mo[i:i + 4] for i in range(0, len(mo), 4)]
-                m_shape = sorted((o[0], o[3] if o[0] in (1, 3) else 0, o[2]) for o in outs)
-                i_shape = sorted(((1, p["depth"], 1) if p["flag"] else (3, p["depth"], 0) if p["stuck"] else (2, 0, 0) if p["error"] is None else (4, p["depth"], 0)) for p in paths)
-                if m_shape != i_shape:
-                    bad("broken-tie", f"L2s [{descr}] depth {c['depth']}: solver answers {im.get('checks_by_call')} -> model outcomes (kind, frames, flag) {m_shape}, implementation paths {i_shape}", shown)
+                outs = [mo[i:i + 5] for i in range(0, len(mo), 5)]
+                # outcomes no sampled input lies on are left out on both sides: where halmos decides a branch without
+                # asking the oracle (a symbol pinned by an equality on the path makes the condition concrete) the model,
+                # for which an unrecorded query is Unknown, also follows the side that is empty; a side that is wrongly
+                # not followed still shows, as a model outcome with inputs on it that the implementation lacks
+                m_shape = sorted((o[0], o[3] if o[0] in (1, 3) else 0, o[2], o[4]) for o in outs if o[4])
+                i_shape = sorted(((1, p["depth"], 1, p["mask"]) if p["flag"] else (3, p["depth"], 0, p["mask"]) if p["stuck"]
+                                  else (2, 0, 0, p["mask"]) if p["error"] is None else (4, p["depth"], 0, p["mask"])) for p in paths if p["mask"])
+                if len(m_shape) != len(outs) or len(i_shape) != len(paths):
+                    rep.count("l2seq_model", "outcomes-without-sampled-input-left-out")
+                if im.get("record_conflicts"):
+                    # two paths that the sampled inputs do not tell apart got different answers for the same query:
+                    # the oracle table handed to the model is ambiguous, the shapes are not compared
+                    rep.count("l2seq_model", "ambiguous-oracle-table")
+                elif m_shape != i_shape:
+                    bad("broken-tie", f"L2s [{descr}] depth {c['depth']}: solver answers (samples on the path, step, negated, answer) {im.get('records')} -> model outcomes (kind, frames, flag, samples) {m_shape}, implementation paths {i_shape}", shown)
+                else:
+                    rep.count("l2seq_model", "same-outcomes")
         rep.case({"l2seq": k, "steps": descr, "depth": c["depth"], "nvals": len(c["vals"])}, nontrivial=nontriv)
 
 
@@ -1422,7 +1604,7 @@ def run(rep, tier):
         trusted_base=common.TRUSTED_BASE_COMMON,
         assumptions=ASSUMPTIONS,
         partial=PARTIAL,
-        rule="L1 cases = (bound selector, calldata layout of concrete and symbolic chunks, valuations): word operands over sign/width boundaries (all pairs), bytes of lengths 0,1,31,32,33,64 equal / one bit flipped / prefix / trailing zero, arrays of lengths 0-3 equal / one element / length differing, messages incl. invalid UTF-8, truncated and out-of-range offsets; a case is non-trivial when its concretised calldata is a valid ABI encoding for the signature (so that the stated relation is defined); each valuation is one evaluation of the real handler's z3 condition vs the extracted model vs the Python spec. Signature-string cases = mk_assert_handler on table and mutated signatures compared behaviourally on 16 probe calldatas. L2 cases = (call depth 0..3, a vm.assume prefix [const / x<c / signed x<c / x!=0], a cheatcode call with concrete or symbolic operands, valuations): SEVM.run on a chain of forwarding contracts; per valuation the set of yielded paths whose constraints hold is compared with the spec (failure reported iff assumption holds and relation false; passing inputs continue; inputs excluded by the assumption have no path), and the outcome shape with the branching model fed with the recorded solver answers; every bound selector is also run once passing and once failing at a random depth. L2s cases = (call depth 0..3, a sequence of 2-5 cheatcode calls issued by that frame: asserts over x / y / a bool, literally true / false asserts, bytes and array asserts, assumes [x<c, signed, y!=0, const], unsupported bytes[]/string[] overloads; fixed orders that put a failing branch on the worklist before an unsupported call, plus random orders; valuations of x, y, b): per valuation the yielded paths are compared with Foundry's run of the sequence on that input alone (failure iff first bad step is an assertion; pass => reaches the end; unsupported => on a stuck path; rejected => nowhere), and the multiset of (kind, frame depth, flag) with Model.run_prog fed with the recorded solver answers; non-trivial when at least one valuation gives every assert a valid encoding. Catch cases = every class of halmos.exceptions and 10 builtins: the model's except-clause routing vs Python's issubclass",
+        rule="L1 cases = (bound selector, calldata layout of concrete and symbolic chunks, valuations): word operands over sign/width boundaries (all pairs), bytes of lengths 0,1,31,32,33,64 equal / one bit flipped / prefix / trailing zero, arrays of lengths 0-3 equal / one element / length differing, messages incl. invalid UTF-8, truncated and out-of-range offsets; a case is non-trivial when its concretised calldata is a valid ABI encoding for the signature (so that the stated relation is defined); each valuation is one evaluation of the real handler's z3 condition vs the extracted model vs the Python spec. Signature-string cases = mk_assert_handler on table and mutated signatures compared behaviourally on 16 probe calldatas. L2 cases = (call depth 0..3, a vm.assume prefix [const / x<c / signed x<c / x!=0], a cheatcode call with concrete or symbolic operands, valuations): SEVM.run on a chain of forwarding contracts; per valuation the set of yielded paths whose constraints hold is compared with the spec (failure reported iff assumption holds and relation false; passing inputs continue; inputs excluded by the assumption have no path), and the outcome shape with the branching model fed with the recorded solver answers; every bound selector is also run once passing and once failing at a random depth. L2s cases = (call depth 0..3, a sequence of 2-5 cheatcode calls issued by that frame: asserts over x / y / a bool, literally true / false asserts, bytes and array asserts, assumes [x<c, signed, y!=0, const], unsupported bytes[]/string[] overloads; fixed orders that put a failing branch on the worklist before an unsupported call, plus random orders; valuations of x, y, b): per valuation the yielded paths are compared with Foundry's run of the sequence on that input alone (failure iff first bad step is an assertion; pass => reaches the end; unsupported => on a stuck path; rejected => nowhere), and the multiset of (kind, frame depth, flag) with Model.run_prog fed with the recorded solver answers; non-trivial when at least one valuation gives every assert a valid encoding. Branching sequences (the same comparison): an assumption or a refuted branch first, then JUMPIs on x / y / an undecidable function of x (both polarities, so that either side is the fall-through explored first) interleaved with asserts on the same operands; valuations include every compared constant and its neighbours; the oracle handed to the model is the table of the real ex.check answers keyed by (sampled inputs on the path asked about, step, negated), and every unsat answer is tested against those inputs. Catch cases = every class of halmos.exceptions and 10 builtins: the model's except-clause routing vs Python's issubclass",
     )
 
 
@@ -1432,7 +1614,8 @@ def replay(rep, body):
         print(f.get("kind"), ":", (f.get("what") or "")[:300])
         if case.get("l2seq"):
             c = {"kind": "l2seq", "depth": case["depth"], "steps": case["steps"], "vals": [case.get("valuation") or {}], "after": case.get("after", "ignore")}
-            print("L2s case      : depth", c["depth"], [st["sig"] if st["kind"] == "assert" else st for st in c["steps"]], c["vals"])
+            c["branch_timeout_ms"] = case.get("branch_timeout_ms")
+            print("L2s case      : depth", c["depth"], [step_name(st) for st in c["steps"]], c["vals"])
             print("implementation:", impl_l2(c))
             if case.get("valuation"):
                 print("spec (Foundry's run on this input):", foundry_verdict(c["steps"], case["valuation"]))
